@@ -820,6 +820,7 @@ def run(ctx, rep):
             def undecided(self, rule, key, *a, **k):
                 return self._rep.undecided('C15.Q', 'HMC::' + key, *a, **k)
         c16.check_operator(ctx, Proxy(rep))
+        c16.check_integrator(ctx, Proxy(rep))
     except Unsupported as u:
         rep.undecided('C15.Q', 'HMC::check_operator', f"line {getattr(u.node, 'lineno', 0)}", str(u))
     for fn in (check_loop, check_save_restore, check_hastings, check_tuning):
